@@ -423,6 +423,8 @@ def part_realsock(flavor, case, J):
         cnt["real_socket_runs"] += 1
         cnt["oracle_documented"] += 1
         want = realsock.EXPECT[b]
+        if want == "caller-error":
+            continue  # (an argument of the wrong type: whatever Python raises for it is the caller's to see)
         ctx = {"backend": backend, "behaviour": b, "server_accepted": res.get("accepted")}
         exc = res.get("exc")
         J.sigs.add(f"realsock|{backend}|{b}|{res.get('outcome') if exc is None else type(exc).__name__}")
